@@ -154,8 +154,10 @@ func c09ShedRun(r *zsim.Run) {
 				r.Failf("rejected-below-capacity", "a request was rejected at %v with at most %d in flight (largest in-flight seen at a completion: %d) while the capacity estimated from the window is %d", now, hiBefore, maxAtCompletion, cap)
 				return false
 			}
-			// (half a unit of slack: overlapping completions may be applied in another order than they return)
-			if emaPeak+0.5 < float64(cap+1) {
+			// (half a unit of slack: overlapping completions may be applied in another order than they return; the
+			// statement's "exceeds" is taken literally - the library compares the integer part, which is stricter,
+			// and a change to a real-valued comparison would still satisfy the statement)
+			if emaPeak+0.5 <= float64(cap) {
 				r.Failf("rejected-while-smoothed-below-capacity", "a request was rejected at %v although the smoothed in-flight count can be at most %.2f (moving average over all completions, failed ones included) and the capacity estimated from the window is %d: both the current and the smoothed count must exceed it", now, emaPeak, cap)
 				return false
 			}
